@@ -209,7 +209,7 @@ Lemma run_body_struct g sid link aok inp :
     /\ exists sel n cur, conts pre = sel ++ repeat (CSideEffects sid) n ++ cur
                          /\ SelOk aok sid link sel /\ CurOk sid cur.
 Proof.
-  destruct inp as [cok reqs | lock t | r]; cbn [run_body].
+  destruct inp as [cok reqs | lock t | r]; unfold run_body; cbn [run_body_with].
   - (* prompt *)
     destruct (g_provider g); cbn [negb].
     2:{ exists [ES sid 1 SOutput], 2, R_COMPLETED. split; [reflexivity|]. split.
@@ -353,7 +353,7 @@ Lemma run_session_owned g sid link aok inp : owned sid (run_session g sid link a
 Proof.
   unfold run_session. apply owned_app.
   - constructor; [reflexivity|].
-    destruct inp as [cok reqs | lock t | r]; cbn [run_body].
+    destruct inp as [cok reqs | lock t | r]; unfold run_body; cbn [run_body_with].
     + destruct (g_provider g); cbn [negb]; [|apply owned_frames_at].
       assert (A : owned sid
         (let '(evs, seq, reason, prev) := agent_loop sid link aok (g_stateless g) reqs 0 1 false false in
@@ -891,9 +891,237 @@ Lemma run_session_prefix g sid link aok cok reqs extra :
   (N.to_nat MAX_TOOL_CALLS < length reqs)%nat ->
   run_session g sid link aok (IPrompt cok (reqs ++ extra)) = run_session g sid link aok (IPrompt cok reqs).
 Proof.
-  intros H. unfold run_session. cbn [run_body]. rewrite agent_loop_prefix; [reflexivity|].
+  intros H. unfold run_session. unfold run_body; cbn [run_body_with]. rewrite agent_loop_prefix; [reflexivity|].
   replace (MAX_TOOL_CALLS - 0) with MAX_TOOL_CALLS by lia. exact H.
 Qed.
+
+(* ---------- the tool budget bounds the conversation: it depends on WHERE tool_call_count is incremented ---------- *)
+(* at AcctEveryCall the parametrised loop is the loop of the model the correspondence runs *)
+Lemma run_calls_a_every sid link aok calls : forall count seq,
+  run_calls_a AcctEveryCall sid link aok calls count seq = run_calls sid link aok calls count seq.
+Proof.
+  induction calls as [|c rest IH]; intros count seq; cbn [run_calls_a run_calls]; [reflexivity|].
+  destruct (MAX_TOOL_CALLS <=? count); [reflexivity|]. cbn [acct_counts]. rewrite IH. reflexivity.
+Qed.
+
+Lemma agent_loop_a_every sid link aok st reqs : forall count seq prev fu,
+  agent_loop_a AcctEveryCall sid link aok st reqs count seq prev fu = agent_loop sid link aok st reqs count seq prev fu.
+Proof.
+  induction reqs as [|r rest IH]; intros count seq prev fu; cbn [agent_loop_a agent_loop]; [reflexivity|].
+  destruct (MAX_TOOL_CALLS <=? count); [reflexivity|].
+  destruct (fu && negb st && negb prev); [reflexivity|].
+  destruct r as [| |hst hbody| | |pf|pf hid calls]; try reflexivity.
+  destruct calls as [|c calls]; [reflexivity|].
+  destruct (negb (hid || prev) && negb st); [reflexivity|].
+  rewrite run_calls_a_every.
+  destruct (run_calls sid link aok (c :: calls) count _) as [[[evs1 s2] c'] ex].
+  destruct ex; [reflexivity|]. rewrite IH. reflexivity.
+Qed.
+
+Lemma run_session_a_every g sid link aok inp : run_session_a ACCT g sid link aok inp = run_session g sid link aok inp.
+Proof.
+  unfold run_session_a, run_session, run_body, ACCT.
+  assert (E : run_body_with (agent_loop_a AcctEveryCall) g sid link aok inp = run_body_with agent_loop g sid link aok inp).
+  { destruct inp as [cok reqs | lock t | r]; cbn [run_body_with]; try reflexivity.
+    rewrite agent_loop_a_every. reflexivity. }
+  rewrite E. reflexivity.
+Qed.
+
+(* request frames *)
+Definition nreqk (ks : list sk) : nat := length (filter is_reqk ks).
+Lemma nreq_app a b : nreq (a ++ b) = (nreq a + nreq b)%nat.
+Proof. unfold nreq. rewrite filter_app, app_length. reflexivity. Qed.
+Lemma nreqk_app a b : nreqk (a ++ b) = (nreqk a + nreqk b)%nat.
+Proof. unfold nreqk. rewrite filter_app, app_length. reflexivity. Qed.
+Lemma nreq_frames_at sid q ks : nreq (frames_at sid q ks) = nreqk ks.
+Proof.
+  revert q; induction ks as [|k ks IH]; intro q; [reflexivity|].
+  cbn [frames_at]. unfold nreq, nreqk in *. cbn [filter is_req]. destruct (is_reqk k); cbn [length]; rewrite IH; reflexivity.
+Qed.
+Lemma nreq_capp aok k : nreq (capp aok k) = 0%nat.
+Proof. unfold capp. destruct (aok k); reflexivity. Qed.
+Lemma nreq_side_effects sid link aok : nreq (side_effects sid link aok) = 0%nat.
+Proof. unfold side_effects. destruct link; [apply nreq_capp | reflexivity]. Qed.
+Lemma nreqk_repN k n : is_reqk k = false -> nreqk (repN k n) = 0%nat.
+Proof.
+  intros H. unfold repN, nreqk. induction (N.to_nat n) as [|m IH]; cbn [repeat filter]; [reflexivity|]. rewrite H. exact IH.
+Qed.
+Lemma nreqk_tool_kinds t : nreqk (tool_kinds t) = 0%nat.
+Proof.
+  unfold tool_kinds. rewrite nreqk_app.
+  assert (A : nreqk (auto_kinds (t_auto t)) = 0%nat).
+  { unfold auto_kinds. destruct (t_auto t =? 0); [reflexivity|]. destruct (t_auto t =? 1); reflexivity. }
+  rewrite A. cbn [Nat.add].
+  change (nreqk (SToolStarted :: ?x)) with (nreqk x).
+  destruct (t_res t) as [| |o e|file mx]; try reflexivity.
+  rewrite !nreqk_app, !nreqk_repN by reflexivity. reflexivity.
+Qed.
+Lemma nreqk_prov_kinds pf : nreqk (prov_kinds pf) = 0%nat.
+Proof.
+  unfold prov_kinds. induction pf as [|d pf IH]; [reflexivity|]. cbn [flat_map]. rewrite nreqk_app, IH.
+  destruct d; reflexivity.
+Qed.
+Lemma nreqk_stream_kinds r : (nreqk (fst (stream_kinds r)) <= 1)%nat.
+Proof.
+  destruct r as [| |hst hbody| | |pf|pf h c]; cbn [stream_kinds fst]; try (unfold nreqk; cbn [filter is_reqk length]; lia).
+  - rewrite !nreqk_app, nreqk_prov_kinds. unfold nreqk; cbn [filter is_reqk length]; lia.
+  - rewrite nreqk_app, nreqk_prov_kinds. unfold nreqk; cbn [filter is_reqk length]; lia.
+Qed.
+
+(* a tool round makes no request; when every call is paid for and the round was not cut short, a non-empty round
+   moves the counter *)
+Lemma run_calls_a_nreq ac sid link aok calls : forall count seq evs seq' count' ex,
+  run_calls_a ac sid link aok calls count seq = (evs, seq', count', ex) ->
+  nreq evs = 0%nat /\ (acct_all ac = true -> calls <> [] -> ex = false -> count + 1 <= count') /\ count <= count'.
+Proof.
+  induction calls as [|c rest IH]; intros count seq evs seq' count' ex H; cbn [run_calls_a] in H.
+  - inv4 H. repeat split; [intros _ Hne; contradiction | lia].
+  - destruct (MAX_TOOL_CALLS <=? count); [inv4 H; repeat split; [intros _ _ Hex; discriminate | lia]|].
+    destruct (run_calls_a ac sid link aok rest _ _) as [[[evs1 s1] c1] e1] eqn:E. inv4 H.
+    destruct (IH _ _ _ _ _ _ E) as (N1 & _ & Mono).
+    repeat split.
+    + rewrite !nreq_app, nreq_frames_at, N1.
+      assert (K : nreqk (if c_allowed c then tool_kinds (c_tool c) else rejected_kinds) = 0%nat).
+      { destruct (c_allowed c); [apply nreqk_tool_kinds | reflexivity]. }
+      rewrite K. destruct (c_allowed c && c_lock c); [rewrite nreq_side_effects|]; reflexivity.
+    + intros Hall _ _. destruct ac; [|discriminate]. cbn [acct_counts] in Mono. exact Mono.
+    + destruct (acct_counts ac c); lia.
+Qed.
+
+(* the number of requests of the loop is bounded by the budget that is left (a request is only made with budget left,
+   and its round spends some) - WHEN every drained call is paid for *)
+Lemma agent_loop_a_nreq ac sid link aok st reqs : acct_all ac = true -> forall count seq prev fu evs seq' reason p,
+  agent_loop_a ac sid link aok st reqs count seq prev fu = (evs, seq', reason, p) ->
+  N.of_nat (nreq evs) <= MAX_TOOL_CALLS - count.
+Proof.
+  intros Hall. induction reqs as [|r rest IH]; intros count seq prev fu evs seq' reason p H; cbn [agent_loop_a] in H.
+  - destruct (MAX_TOOL_CALLS <=? count) eqn:Hc; [inv4 H; cbn; lia|]. apply N.leb_gt in Hc.
+    destruct (fu && negb st && negb prev); [inv4 H; cbn; lia|].
+    inv4 H. change (N.of_nat (nreq (frames_at sid seq (fst (stream_kinds (RHttpErr [] []))))) <= MAX_TOOL_CALLS - count).
+    rewrite nreq_frames_at. pose proof (nreqk_stream_kinds (RHttpErr [] [])). lia.
+  - destruct (MAX_TOOL_CALLS <=? count) eqn:Hc; [inv4 H; cbn; lia|]. apply N.leb_gt in Hc.
+    destruct (fu && negb st && negb prev); [inv4 H; cbn; lia|].
+    pose proof (nreqk_stream_kinds r) as K0.
+    remember (fst (stream_kinds r)) as ks eqn:Eks. clear Eks.
+    destruct r as [| |hst hbody| | |pf|pf hid calls]; try (inv4 H; rewrite nreq_frames_at; lia).
+    destruct calls as [|c calls]; [inv4 H; rewrite nreq_frames_at; lia|].
+    destruct (negb (hid || prev) && negb st); [inv4 H; rewrite nreq_frames_at; lia|].
+    destruct (run_calls_a ac sid link aok (c :: calls) count _) as [[[evs1 s2] c'] ex] eqn:E1.
+    destruct (run_calls_a_nreq _ _ _ _ _ _ _ _ _ _ _ E1) as (N1 & Step & _).
+    destruct ex; [inv4 H; rewrite nreq_app, nreq_frames_at, N1; lia|].
+    assert (Hc' : count + 1 <= c') by (apply Step; [exact Hall | discriminate | reflexivity]).
+    destruct (agent_loop_a ac sid link aok st rest c' s2 (hid || prev) true) as [[[evs2 s3] r2] p2] eqn:E2.
+    pose proof (IH _ _ _ _ _ _ _ _ E2) as B2. inv4 H.
+    rewrite !nreq_app, nreq_frames_at, N1. lia.
+Qed.
+
+Lemma nreq_last_capp link aok (f : N -> ck) : nreq (match link with Some mid => capp aok (f mid) | None => [] end) = 0%nat.
+Proof. destruct link; [apply nreq_capp | reflexivity]. Qed.
+
+(* every run, whatever the provider answers and however long it goes on answering, makes at most MAX_TOOL_CALLS
+   requests - for an accounting that pays for every drained call *)
+Theorem requests_bounded ac g sid link aok inp : acct_all ac = true ->
+  (nreq (run_session_a ac g sid link aok inp) <= N.to_nat MAX_TOOL_CALLS)%nat.
+Proof.
+  intros Hall. unfold run_session_a. rewrite nreq_app.
+  rewrite (nreq_last_capp link aok (fun mid => CRunEnded sid mid _)).
+  change (nreq (ES sid 0 SStarted :: ?x)) with (nreq x). rewrite Nat.add_0_r.
+  destruct inp as [cok reqs | lock t | r]; cbn [run_body_with].
+  - destruct (g_provider g); cbn [negb]; [|cbv; lia].
+    assert (A : le (nreq (let '(evs, seq, reason, prev) := agent_loop_a ac sid link aok (g_stateless g) reqs 0 1 false false in
+                          evs ++ (if (reason =? R_COMPLETED) && prev
+                                  then match link with Some _ => capp aok (CCursor sid) | None => [] end else [])
+                          ++ [ES sid seq (SEnded reason)])) (N.to_nat MAX_TOOL_CALLS)).
+    { destruct (agent_loop_a ac sid link aok (g_stateless g) reqs 0 1 false false) as [[[evs seq] reason] prev] eqn:E.
+      pose proof (agent_loop_a_nreq ac _ _ _ _ _ Hall _ _ _ _ _ _ _ _ E) as B.
+      rewrite !nreq_app.
+      assert (C : nreq (if (reason =? R_COMPLETED) && prev
+                        then match link with Some _ => capp aok (CCursor sid) | None => [] end else []) = 0%nat).
+      { destruct ((reason =? R_COMPLETED) && prev); [|reflexivity]. destruct link; [apply nreq_capp | reflexivity]. }
+      rewrite C. change (nreq [ES sid seq (SEnded reason)]) with 0%nat. lia. }
+    destruct link as [mid|]; [destruct cok|].
+    + rewrite !nreq_app, !nreq_capp. exact A.
+    + cbv; lia.
+    + destruct cok; cbn [app]; exact A.
+  - rewrite !nreq_app, nreq_frames_at, nreqk_tool_kinds.
+    assert (S0 : nreq (if lock then side_effects sid link aok else []) = 0%nat)
+      by (destruct lock; [apply nreq_side_effects | reflexivity]).
+    rewrite S0. unfold runtime_tail. rewrite nreq_frames_at. cbv; lia.
+  - rewrite nreq_app. unfold runtime_tail. rewrite !nreq_frames_at. destruct r; cbv; lia.
+Qed.
+
+(* the restated prefix property: with that accounting the run never reads past provider answer MAX_TOOL_CALLS *)
+Lemma run_session_a_prefix ac g sid link aok cok reqs extra : acct_all ac = true ->
+  (N.to_nat MAX_TOOL_CALLS < length reqs)%nat ->
+  run_session_a ac g sid link aok (IPrompt cok (reqs ++ extra)) = run_session_a ac g sid link aok (IPrompt cok reqs).
+Proof.
+  intros Hall H. destruct ac; [|discriminate]. change AcctEveryCall with ACCT.
+  rewrite !run_session_a_every. apply run_session_prefix. exact H.
+Qed.
+
+(* REFUTED when a refused call is free: the stubborn provider (every answer = one refused call) is asked again after
+   EVERY answer - for every n the run has consumed a script of n such answers and made request n+1; no finite prefix
+   of the provider's answers determines the run, and against a provider that never stops the run never ends *)
+Definition g_stateless_prov : cfg := {| g_provider := true; g_stateless := true |}.
+
+Lemma stubborn_loop sid link aok n : forall seq prev fu evs seq' reason p,
+  agent_loop_a AcctDispatchedOnly sid link aok true (repeat refused_answer n) 0 seq prev fu = (evs, seq', reason, p) ->
+  nreq evs = S n /\ reason = R_PROVIDER_ERROR.
+Proof.
+  induction n as [|n IH]; intros seq prev fu evs seq' reason p H; cbn [repeat agent_loop_a] in H.
+  - change (MAX_TOOL_CALLS <=? 0) with false in H. cbv beta iota zeta in H.
+    rewrite andb_false_r in H. cbn [andb] in H. cbv zeta in H. inv4 H. split; [|reflexivity].
+    reflexivity.
+  - change (MAX_TOOL_CALLS <=? 0) with false in H. cbv beta iota zeta in H.
+    rewrite andb_false_r in H. cbn [andb] in H.
+    unfold refused_answer at 1 in H. cbn [orb negb andb run_calls_a refused_call c_allowed c_lock acct_counts] in H.
+    change (MAX_TOOL_CALLS <=? 0) with false in H. cbv beta iota zeta in H.
+    destruct (agent_loop_a AcctDispatchedOnly sid link aok true (repeat refused_answer n) 0 _ true true)
+      as [[[evs2 s3] r2] p2] eqn:E2.
+    destruct (IH _ _ _ _ _ _ _ E2) as [N2 R2]. cbv zeta in H. inv4 H. split; [|reflexivity].
+    unfold nreq in N2 |- *. cbn [filter is_req is_reqk length]. rewrite N2. reflexivity.
+Qed.
+
+Lemma stubborn_nreq m :
+  nreq (run_session_a AcctDispatchedOnly g_stateless_prov 1 (Some 2) all_ok (IPrompt true (repeat refused_answer m))) = S m.
+Proof.
+  unfold run_session_a. rewrite nreq_app. change (nreq (capp all_ok _)) with 0%nat.
+  change (nreq (ES 1 0 SStarted :: ?x)) with (nreq x). rewrite Nat.add_0_r.
+  cbn [run_body_with g_stateless_prov g_provider g_stateless negb].
+  destruct (agent_loop_a AcctDispatchedOnly 1 (Some 2) all_ok true (repeat refused_answer m) 0 1 false false)
+    as [[[evs seq] reason] prev] eqn:E0.
+  destruct (stubborn_loop _ _ _ _ _ _ _ _ _ _ _ E0) as [N1 R1]. subst reason.
+  rewrite !nreq_app, N1, !nreq_capp. change (R_PROVIDER_ERROR =? R_COMPLETED) with false.
+  cbn [andb]. change (nreq []) with 0%nat. change (nreq [ES 1 seq (SEnded R_PROVIDER_ERROR)]) with 0%nat. lia.
+Qed.
+
+Theorem requests_unbounded_dispatched_only : forall n : nat,
+  exists reqs, length reqs = n /\ forallb is_refused_answer reqs = true
+    /\ nreq (run_session_a AcctDispatchedOnly g_stateless_prov 1 (Some 2) all_ok (IPrompt true reqs)) = S n.
+Proof.
+  intro n. exists (repeat refused_answer n). split; [apply repeat_length|]. split; [|apply stubborn_nreq].
+  induction n as [|n IH]; [reflexivity | cbn [repeat forallb]; rewrite IH; reflexivity].
+Qed.
+
+(* … so the prefix property fails for every length: one more answer changes the run *)
+Theorem prefix_fails_dispatched_only : forall n : nat,
+  run_session_a AcctDispatchedOnly g_stateless_prov 1 (Some 2) all_ok (IPrompt true (repeat refused_answer n ++ [refused_answer]))
+  <> run_session_a AcctDispatchedOnly g_stateless_prov 1 (Some 2) all_ok (IPrompt true (repeat refused_answer n)).
+Proof.
+  intros n E. apply (f_equal nreq) in E.
+  replace (repeat refused_answer n ++ [refused_answer]) with (repeat refused_answer (S n)) in E.
+  2:{ clear. induction n as [|n IH]; [reflexivity | cbn [repeat app]; f_equal; exact IH]. }
+  rewrite !stubborn_nreq in E. lia.
+Qed.
+
+(* the same stubborn provider against the accounting of the code: 32 requests, max_tool_calls_exceeded *)
+Definition stubborn_run : list ev :=
+  run_session g_stateless_prov 1 (Some 2) all_ok (IPrompt true (repeat refused_answer 64)).
+Lemma stubborn_run_ends :
+  nreq stubborn_run = 32%nat
+  /\ last stubborn_run (EC (CMessage 0)) = EC (CRunEnded 1 2 R_MAX_TOOL_CALLS)
+  /\ forallb is_refused_answer (repeat refused_answer 64) = true.
+Proof. vm_compute. repeat split. Qed.
 
 (* ---------- S6: the one-run-per-session guard under concurrent inputs ---------- *)
 Definition is_acc (p : pc) : bool := match p with PcAccepted => true | _ => false end.
